@@ -59,17 +59,51 @@ def field_uses(body):
 
 
 def kind_colour_table(ix, key):
-    """{(Kind, Colour): set of fields} for a function that matches on a Kind (and its colour) and then
-    touches exactly one piece bitboard per arm."""
+    """{(Kind, Colour): set of piece-bitboard fields touched} for a function taking a Kind (or only a Color), read off
+    by per-case constant propagation: the function is walked once per (kind, colour) with that argument fixed, and the
+    fields named in its stores and call arguments on the returning paths are collected.  Independent of whether the
+    12-way split is one match, nested matches, or a lookup helper returning a reference to the field."""
+    from . import cases
     b = ix.body(key)
-    sym = mir.Sym(b, ix)
+    kparam = cparam = None
+    for l in range(1, b.arg_count + 1):
+        ty = b.locals[l]["ty"].lstrip("&").replace("mut ", "")
+        if ty == "board::piece::Kind" and kparam is None:
+            kparam = b.local_name(l)
+        elif ty == "board::piece::Color" and cparam is None:
+            cparam = b.local_name(l)
     out = {}
-    for bi, f in field_uses(b):
-        cons = C.constraints_for(ix, b, sym, bi)
-        k, c = kc_from_constraints(cons)
-        if k is None and c is None:
-            continue
-        out.setdefault((k, c), set()).add(f)
+    if kparam is None and cparam is None:
+        return out, b
+    combos = [(k, c) for k in KINDS for c in COLOURS] if kparam is not None else [(None, c) for c in COLOURS]
+    for k, c in combos:
+        col = cases.enum_val(ix, "board::piece::Color", c)
+        inp = {kparam: cases.enum_val(ix, "board::piece::Kind", k, [col])} if kparam is not None else {cparam: col}
+        run = cases.run(ix, b, inp)
+        fields = set()
+        undecided = run.overflow
+        for p in run.paths:
+            if p.end not in ("return", "panic", "unreachable"):
+                undecided = True
+            if p.end != "return":
+                continue
+            texts = []
+            for e in p.events:
+                if e[0] == "store":
+                    texts.append(e[2])
+                    texts.append(expr_str(e[3]))
+                elif e[0] == "call":
+                    texts.extend(expr_str(a) for a in e[3])
+            if p.ret is not None:
+                texts.append(expr_str(p.ret))
+            for t in texts:
+                for f in PIECE_FIELDS:
+                    if ("." + f) in t and not t[t.index("." + f) + len(f) + 1:t.index("." + f) + len(f) + 2].isalnum() and t[t.index("." + f) + len(f) + 1:t.index("." + f) + len(f) + 2] != "_":
+                        fields.add(f)
+        if undecided:
+            fields.add("<undecided>")
+        if fields:
+            out[(k, c)] = fields
     return out, b
 
 
